@@ -6,7 +6,7 @@ From Molt Require Import Model.Base Model.ListSyn Model.Float Model.Value Model.
 Local Open Scope N_scope.
 
 Definition c14_prelude : str :=
-  lit "proc pa2 {a b} {}; set nonint abc; proc rce {} {return -code error rmsg}; proc rcei {} {return -code error -errorcode ECODE -errorinfo {given info} imsg}".
+  lit "proc pa2 {a b} {}; set nonint abc; proc rce {} {return -code error rmsg}; proc rcei {} {return -code error -errorcode ECODE -errorinfo {given info} imsg}; proc rcec {} {return -code error -errorcode ONLYCODE cmsg}".
 
 Definition gvar (st : interp) (n : string) : term :=
   match st_scalar st (lit n) with Ok v => TStr (as_str v) | _ => TStr (lit "<unset>") end.
@@ -30,7 +30,7 @@ Definition c14_model_obs (c : term) : term :=
       host_obs st0 (lit "catch {" ++ f ++ lit "} r o; rec first [dict get $o -errorinfo]; proc again {r o} {return -code error -errorcode [dict get $o -errorcode] -errorinfo [dict get $o -errorinfo] $r}; catch {again $r $o} r2 o2; rec second $r2 [dict get $o2 -errorcode] [dict get $o2 -errorinfo]")
     else
       let '(st1, a) := host_obs st0 f in
-      let '(st2, b) := host_obs st1 (lit "set x 1; catch {break}; catch {return 5}; foreach i {1 2} {continue}; proc qq {} {return -code 7 z}; catch {qq}; expr {1 && 0}") in
+      let '(st2, b) := host_obs st1 (lit "set x 1; catch {break}; catch {return 5}; foreach i {1 2} {continue}; proc qq {} {return -code 7 z}; catch {qq}; catch {return -code error -errorcode LATER later}; catch {return -level 2 -code error -errorcode L2 -errorinfo {later info} l2}; expr {1 && 0}") in
       (st2, TList [a; b]) in
   TList [out; TList (map (fun call => TStrs (tl call)) (rev (i_trace st)))].
 
